@@ -70,6 +70,11 @@ DIRECTED = [
      {'multi': True, 'lang': 'en-GB'}),
     ('\\usepackage{babel}Abc\n\\begin{otherlanguage}{german}\nWort\n\\end{otherlanguage}\nxyz qkj.',
      {'multi': True, 'lang': 'en-GB', 'thresh': 5}),
+    # replacement lists: longer, shorter, equal, at the start, in the middle,
+    # at the end of the text; the text around the phrases keeps its place
+    ('Abc so dass xyq und z.B. wvu so dass', {'repl': ['so dass & 1111 2222 33', 'z.B. & 44 55555']}),
+    ('so dass jkl \\textbf{so dass} mnp\\footnote{q so dass r} t', {'repl': ['so dass & so dass dass dass']}),
+    ('Abc so dass xyq und wvu', {'repl': ['so dass & 12', 'und & 66 77777 88']}),
     # German shorthands map to the first character of the sequence
     ('\\usepackage[german]{babel}A "a "O "s "` x "\' y "= z "- k "~ q "| w "" v', {'lang': 'de-DE'}),
 ]
